@@ -531,3 +531,38 @@ def run_put_vs_empty(args):
                 'p2_exit': results['p2']['exit']}
     finally:
         box.destroy()
+
+
+# ---- state-based design conformance of trash-put (spec/PutStateTrace.tla) --------------------------------------
+
+def put_state_trace(args):
+    """the uninterrupted run of a single scenario in lock-step with EVERY operation a step: -> the sequence of distinct
+    projected states after the initial one, and the constants of the scenario for the validator"""
+    scen, seed = args
+    runner.prepare()
+    kinds, kw = scenario(scen)
+    box = make_box(kinds, kw, seed)
+    try:
+        keys = ('parts', 'info', 'pay', 'src')
+        last = {k: box.project({})[k] for k in keys}
+        steps, results, creators = oplevel.run_schedule(box, ['p1'], lambda k, r, c: r[0],
+                                                        commands={'p1': ('trash-put', put_args(box))}, all_ops=True, max_steps=4000)
+        seq = []
+        for s in steps:
+            st = {k: s['state'][k] for k in keys}
+            if st != last:
+                seq.append(st)
+                last = st
+        ab = lambda s_: s_ if isinstance(s_, str) else box.slot_abs(s_)
+        preinfo = [[t, ab(s_)] for t, s_ in kw.get('pre_info', [])]
+        prepay = [[t, ab(s_)] for t, s_, k_ in kw.get('pre_pay', [])]
+        return {'scen': scen, 'states': seq, 'exit': results['p1']['exit'], 'nops': len(steps),
+                'consts': {'procs': sorted(box.sources), 'preinfo': preinfo, 'prepay': prepay,
+                           'extra_slots': sorted(set(a for t, a in preinfo + prepay if not (a == 'n' or a[1:].isdigit()))),
+                           'dirs_exist': ['t1'] if (kw.get('tdir_exists') or preinfo or prepay) else [],
+                           'copy_cands': ['t1'] if kw.get('fallback') else [],
+                           'file_procs': [p for p, k in zip(sorted(box.sources), kinds) if k != 'dir'],
+                           'link_procs': [p for p, k in zip(sorted(box.sources), kinds) if k == 'link'],
+                           'toolong': ['n'] if box.long_name() else []}}
+    finally:
+        box.destroy()
